@@ -71,21 +71,25 @@ def gen_sh(rng, tier):
     return ops
 
 
-def sh_key(op, m):
+def sh_key(op, m, ans=""):
+    """stable key of the failing class; the three known classes are recognised by what the real code emitted"""
     w = op.split()
     env = w[1]
     n = int(w[5])
     types = [int(x) for x in w[6:6 + n]]
     dsts = w[8 + n:]
+    insts = [i.strip() for i in ans.split("|")[-1].split(";") if i.strip()]
     small = any(t in (34, 35, 36, 37, 38, 39) for t in types)
-    if env.startswith("a64") and small and "dest-of-arg" in m:
-        return "shuffle:a64-no-extension"
-    widen = small
     groups = {d.split(".")[0] for d in dsts if d.startswith("r")}
-    if len(groups) > 1 and "dest-of-arg" in m:
-        return "shuffle:cross-group-swap"
-    if widen and "dest-of-arg" in m:
-        return "shuffle:swap-without-extension"
+    has_xchg = any(i.startswith("xchg") for i in insts)
+    if "dest-of-arg" in m:
+        if env.startswith("a64") and small and any(i.startswith("mov r") for i in insts):
+            return "shuffle:a64-no-extension"
+        if has_xchg and len(groups) > 1:
+            return "shuffle:cross-group-swap"
+        if has_xchg and small:
+            return "shuffle:swap-without-extension"
+        return "shuffle:wrong-or-unextended-value:" + env
     return "shuffle:" + " ".join(m.split()[:2])
 
 
@@ -118,7 +122,7 @@ def run_shuffle(res, h, rng):
         kk = "sh:" + ops[idx[k]].split()[1] + ":" + " ".join(m.split()[:1])
         kinds[kk] = kinds.get(kk, 0) + 1
         if m.startswith("BAD") or m.startswith("bad-op"):
-            bad.setdefault(sh_key(ops[idx[k]], m), []).append((idx[k], m))
+            bad.setdefault(sh_key(ops[idx[k]], m, impl[idx[k]]), []).append((idx[k], m))
         elif m == "refused":
             e = impl[idx[k]].split("|")[0].strip()
             kinds["sh-refused:" + e.split(" sa=")[0]] = kinds.get("sh-refused:" + e.split(" sa=")[0], 0) + 1
